@@ -1028,7 +1028,63 @@ def rule_split_counters(ctx, facts, rule="O11"):
         ctx.fail_closed("%s: the splitting walk of transfer's tree arm (fresh node per visited node, two usize tallies) was not found" % rule)
 
 
+def rule_split_prev(ctx, facts, rule="O12"):
+    """in a splitting copy walk each new node is wired into ONE of the lists: the tail whose value is stored into the fresh node's `prev`
+    is the tail that the same trip then advances to the fresh node (so `prev` and `next` describe the same list).  A node of the high
+    half whose `prev` is the low tail makes the removal / iteration of the high bin walk into the other bin."""
+    from .analysis import back_edges, loop_blocks, regions
+    from .anchors import is_fresh_alloc
+    from .rules_c07 import private_roots
+    b = facts.body("map::HashMap::transfer")
+    fl = flow(b)
+    locks = {r.call.b for r in regions(b)}
+    n = 0
+    for be in back_edges(b, unwind=False):
+        tail, head = be
+        L = loop_blocks(b, be, unwind=False)
+        if b.is_cleanup(head) or (locks & set(L)):
+            continue
+        if not any(c.b in L and is_fresh_alloc(b, c) and "node::BinEntry" in b.ty(c.dst_local()).get("s", "") for c in b.calls):
+            continue
+        outside = [x for x in range(len(b.blocks)) if x not in L]
+        for c in b.calls:
+            if c.b not in L or b.is_cleanup(c.b) or is_reclaim_atomic(c) != "store" or len(c.args) < 2:
+                continue
+            if ("node::TreeNode", "prev") not in receiver_field(b, c, 0):
+                continue
+            tl = op_root(c.args[0])
+            if tl is None or private_roots(b, tl):
+                continue          # only the fresh node's own prev
+            v = op_root(c.args[1])
+            if v is None:
+                continue
+            # the named variable the stored value was copied from (backwards along plain copies only)
+            x = v
+            hops = 0
+            while not b.local_name(x) and hops < 6:
+                hops += 1
+                srcs = [d for k, d, _ in fl.sources(x) if k == "copy"]
+                if len(srcs) != 1:
+                    break
+                x = srcs[0]
+            ds = [d for d in b.defs.get(x, []) if d[1] in ("assign", "call")]
+            if not (b.local_name(x) and any(d[0][0] in L for d in ds) and any(d[0][0] not in L for d in ds)):
+                continue
+            n += 1
+            defs_in = {Point(d[0][0], d[0][1]) for d in b.defs.get(x, []) if d[0][0] in L}
+            r = reach(b, after(b, c.point, label="ret"), avoid=defs_in, avoid_blocks=outside, unwind=False)
+            ok = Point(head, 0) not in r
+            ctx.inst(rule, b, "`prev` of the new node is the tail `%s` of the list it joins" % b.local_name(x), c.span, ok,
+                     "the same trip advances `%s` to the new node" % b.local_name(x) if ok else
+                     "the new node's prev is taken from `%s` at %s, but a trip that does so reaches the next iteration without advancing `%s`: "
+                     "the node was appended to another list than the one its prev link points into" % (b.local_name(x), c.span, b.local_name(x)))
+    if n < 2:
+        ctx.fail_closed("%s: expected the two prev stores (low / high) of transfer's tree split, found %d" % (rule, n))
+
+
 def run(ctx, facts):
+    ctx.rule("O12", "in transfer's tree split the prev link of a new node comes from the tail of the list the node is appended to", floor=2)
+    rule_split_prev(ctx, facts)
     ctx.rule("O11", "the tallies of transfer's splitting walk count the nodes: exactly one increment per copied node", floor=1)
     rule_split_counters(ctx, facts)
     ctx.rule("O10", "a tree bin retired whole (its Drop frees nodes and values) does not also have its nodes' values retired one by one", floor=1)
